@@ -138,7 +138,7 @@ theorem sound_of_change (q : Q) (s : State) (pre post : List (Nat × Ev)) (now :
 /-- the connection that issues the event (the sweeper has none) -/
 def issuer : Ev → Option Nat
   | .watch c _ => some c | .unwatch c => some c | .multi c => some c | .exec c _ => some c
-  | .discard c => some c | .select c _ => some c | .cmd c _ => some c | .sweep _ _ _ => none
+  | .discard c => some c | .select c _ => some c | .cmd c _ => some c | .sweep _ _ _ => none | .refused c => some c
 
 theorem conn_step_other (q : Q) (s : State) (now : Nat) (ev : Ev) (c' : Nat) (h : issuer ev ≠ some c') :
     (step q s now ev).1.conn c' = s.conn c' := by
@@ -151,9 +151,13 @@ theorem conn_step_other (q : Q) (s : State) (now : Nat) (ev : Ev) (c' : Nat) (h 
     · exact conn_watchAll_other q c now s keys c' hc
   | unwatch c =>
     have hc : c ≠ c' := fun e => h (by rw [e]; rfl)
-    rw [step_unwatch, conn_setConn]
-    simp only [hc, if_false]
-    exact conn_conns_eq (conns_unregAll _ _ _ _) c'
+    rw [step_unwatch]
+    split
+    · rw [conn_setConn]; simp [hc]
+    · rw [conn_setConn]
+      simp only [hc, if_false]
+      exact conn_conns_eq (conns_unregAll _ _ _ _) c'
+  | refused c => rfl
   | multi c =>
     have hc : c ≠ c' := fun e => h (by rw [e]; rfl)
     rw [step_multi]
@@ -206,10 +210,17 @@ theorem empty_watch_step (q : Q) (s : State) (now : Nat) (ev : Ev) (c : Nat) (h 
       have e2 : c' ≠ c := by simpa [noWatchBy] using h
       exact absurd e1 e2
     | unwatch c' =>
-      rw [step_unwatch, conn_setConn]
+      rw [step_unwatch]
       split
-      · rfl
-      · rw [conn_conns_eq (conns_unregAll _ _ _ _)]; exact he
+      · rw [conn_setConn]
+        split
+        · rename_i e; subst e; exact he
+        · exact he
+      · rw [conn_setConn]
+        split
+        · rfl
+        · rw [conn_conns_eq (conns_unregAll _ _ _ _)]; exact he
+    | refused c' => exact he
     | multi c' =>
       rw [step_multi]
       split
